@@ -56,6 +56,20 @@ TraceShowBias ==
         /\ rep("C18.entry_is_metric_of_that_groups_rows", ~labelsOK \/ ~shapeOK \/
                \A r \in 1..nrow : \A i \in 1..nt :
                   (e.normalize = "none" \/ defined(i)) => SameQ2(o.values[r][i], want(r, i)), du)
+        (* beyond the listed property: to_markdown() shows one row per group and, first in every   *)
+        (* cell, the reported value rounded to three decimals                                      *)
+        /\ rep("EXT.markdown_shows_the_values", ~shapeOK \/ ~("md" \in DOMAIN o) \/
+               (/\ Len(o.md) = nrow
+                /\ \A r \in 1..nrow : /\ Len(o.md[r]) = nt
+                                        /\ \A i \in 1..nt :
+                                             LET v == o.values[r][i]  c == o.md[r][i] IN
+                                             IF v[2] = 0 THEN c = NaNLim
+                                             (* as coded (pandas 3 string dtype): a NaN interval bound blanks *)
+                                             (* the whole cell, value included                                *)
+                                             ELSE IF c = NaNLim THEN bshape /\ (o.lower[r][i] = NaNLim \/ o.upper[r][i] = NaNLim)
+                                             ELSE (v[2] > 0 /\ v[2] <= 5000 /\ v[1] < 400000 /\ v[1] > -400000) =>
+                                                  (2 * (c * v[2] - 1000 * v[1]) <= v[2] + 2 /\
+                                                   2 * (1000 * v[1] - c * v[2]) <= v[2] + 2)), "")
         /\ rep("C18.interval_has_same_labels", ~ok \/ ~boot \/ (bshape /\ o.ci_labels_same), du)
         /\ rep("C18.interval_ordered", ~bshape \/
                \A r \in 1..nrow : \A i \in 1..nt :
